@@ -100,6 +100,20 @@ func (c *Ctx) newHeapConst(key, prefix, bound string) string {
 	return n
 }
 
+// markOldSame records that heap constant n agrees with the entry heap on
+// objects that existed at function entry (no modifies item of that sort).
+func (fr *frame) markOldSame(key, n string) {
+	for _, m := range fr.modObjs {
+		if m.sortKey == key {
+			return
+		}
+	}
+	if strings.HasPrefix(key, "map!") {
+		return
+	}
+	fr.c.oldSame[n] = fr.c.heap(fr.entry, key)
+}
+
 // heap returns the current heap term for an element sort.
 func (c *Ctx) heap(st *State, elemSort string) string {
 	if h, ok := st.heaps[elemSort]; ok {
@@ -688,6 +702,18 @@ func (fr *frame) mergeStates(conds []string, sts []*State) *State {
 	for _, k := range ks {
 		k := k
 		out.heaps[k] = mergeTerm(c.heapSortOf(k), func(s *State) string { return c.heap(s, k) })
+		// a merge of heaps that all agree with the entry heap on old objects agrees too
+		entry := heapKey(k) + "_0"
+		all := true
+		for _, s := range sts {
+			h := c.heap(s, k)
+			if h != entry && c.oldSame[h] != entry {
+				all = false
+			}
+		}
+		if all && out.heaps[k] != entry {
+			c.oldSame[out.heaps[k]] = entry
+		}
 	}
 	lkeys := map[*ssa.Alloc]bool{}
 	for _, s := range sts {
@@ -888,6 +914,7 @@ func (fr *frame) enterLoop(li *loopInfo, preds []*ssa.BasicBlock, conds []string
 	}
 	for _, k := range ks {
 		st.heaps[k] = c.newHeapConst(k, "_loop", st.alloc)
+		fr.markOldSame(k, st.heaps[k])
 	}
 	for a := range locals {
 		rt := a.Type().Underlying().(*types.Pointer).Elem()
